@@ -169,8 +169,24 @@ func CheckOutcome(cmd *Cmd, ex Expect, got Outcome, mt *MTable) (fails []Fail, q
 				add("C19.get", "BatchGetItem returned items for table %s that was not requested", t)
 			}
 		}
-		if len(got.UnprocKeys) != 0 {
-			add("C19.get", "BatchGetItem reported %d unprocessed key(s) with no failure active (first: %s)", len(got.UnprocKeys), got.UnprocKeys[0].Key.Canon())
+		absent := 0
+		for _, uk := range got.UnprocKeys {
+			stored := false
+			for _, it := range want.Resp[uk.T] {
+				same := len(uk.Key) > 0
+				for a, v := range uk.Key {
+					same = same && it[a].Canon() == v.Canon()
+				}
+				stored = stored || same
+			}
+			if stored {
+				add("C19.get", "BatchGetItem reported the key %s of a stored item of %s as unprocessed with no failure active", uk.Key.Canon(), uk.T)
+			} else {
+				absent++
+			}
+		}
+		if absent != 0 {
+			add("C19.get", "BatchGetItem reported %d unprocessed key(s) with no failure active, none of which has a stored item (first: %s)", absent, got.UnprocKeys[0].Key.Canon())
 		}
 	}
 	return fails, ""
@@ -337,17 +353,34 @@ func CheckKeyInvariant(def TableDef, u *TableUni, ot *ObsTable) []Fail {
 			continue
 		}
 		// find the item in the scan with this canon to inspect its attributes
+		listed := false
 		for _, it := range ot.Scan.Items {
 			if it.Canon() == got {
+				listed = true
 				if keyOf(def, it).Canon() != k.Canon() {
 					fails = append(fails, Fail{"C13.invariant", fmt.Sprintf("item retrievable under %s carries key attributes %s", k.Canon(), keyOf(def, it).Canon())})
 				}
 			}
 		}
+		if !listed {
+			fails = append(fails, Fail{"C13.ident", fmt.Sprintf("the item retrievable under %s (%s) is not among the items the table lists", k.Canon(), got)})
+		}
+	}
+	uni := map[string]bool{}
+	for _, k := range u.KeysOf(def) {
+		uni[k.Canon()] = true
 	}
 	seen := map[string]int{}
 	for _, it := range ot.Scan.Items {
-		seen[keyOf(def, it).Canon()]++
+		kc := keyOf(def, it).Canon()
+		seen[kc]++
+		if keyProblem(def.KeyAttrs(), keyOf(def, it), false) != "" {
+			fails = append(fails, Fail{"C13.invariant", fmt.Sprintf("the table lists an item without well-typed key attributes: %s", it.Canon())})
+			continue
+		}
+		if got, ok := ot.Gets[kc]; ok && uni[kc] && !strings.HasPrefix(got, "!") && got != it.Canon() {
+			fails = append(fails, Fail{"C13.ident", fmt.Sprintf("the table lists %s, but its key retrieves %s", it.Canon(), got)})
+		}
 	}
 	for k, n := range seen {
 		if n > 1 {
